@@ -255,6 +255,25 @@ class Check:
             json.dump(mapping, f)
         self._overlay = None
 
+    def clock_overlay(self, relpaths):
+        """overlay copies (generated now from the working-tree files) with time.Now()/time.Since( replaced by the virtual clock"""
+        m = {}
+        for rp in relpaths:
+            src = os.path.join(REPO, rp)
+            txt = open(src).read()
+            if "time.Now()" not in txt and "time.Since(" not in txt:
+                raise Infra("clock overlay: %s no longer reads the clock with time.Now()/time.Since()" % rp)
+            txt = txt.replace("time.Now()", "verifclock.Now()").replace("time.Since(", "verifclock.Since(")
+            imp = '\t"go.miragespace.co/specter/internal/verifkit/verifclock"\n'
+            txt = re.sub(r'import \(\n', 'import (\n' + imp, txt, count=1)
+            if not re.search(r'\btime\.', txt.replace("verifclock.", "")):
+                txt = txt.replace('\t"time"\n', '')
+            dst = self.path("clock_" + rp.replace("/", "__"))
+            with open(dst, "w") as f:
+                f.write(txt)
+            m[src] = dst
+        self.add_overlay(m)
+
     def build(self, name, race=False, timeout=900):
         out = self.path("drv_" + name + ("_race" if race else ""))
         cmd = [GO, "build", "-tags", "verif", "-overlay", self.overlay(), "-o", out]
